@@ -430,8 +430,10 @@ class Interp:
         if isinstance(v, ArrList):
             return v.n > 0
         if isinstance(v, (PRec, ZRec, Closure, BoundMeth, Opaque, PyConst, FuncVal)):
-            if isinstance(v, PRec) and 'dkeys' in v.f:
-                return v.f['dkeys'] != z3.K(z3.StringSort(), z3.BoolVal(False))
+            if isinstance(v, (PRec, ZRec)) and self.dictview(v) is not None:
+                return self.dictview(v)[0]() != z3.K(z3.StringSort(), z3.BoolVal(False))
+            if isinstance(v, PRec) and 'okeys' in v.f:
+                return z3.Length(v.f['okeys']) > 0
             return True
         if isinstance(v, PyTuple):
             return len(v.items) > 0
@@ -441,6 +443,8 @@ class Interp:
             # a set: non-empty iff not the constant-false array
             return v != z3.K(v.sort().domain(), z3.BoolVal(False))
         if S.is_record(v):
+            if self.dictview(v) is not None:
+                return self.dictview(v)[0]() != z3.K(z3.StringSort(), z3.BoolVal(False))
             return True
         self.oos(f'truthiness of {type(v).__name__}', node)
 
@@ -464,6 +468,15 @@ class Interp:
             return Val.vtup(self.seq_of([self.to_val(x, node) for x in v.items]))
         if isinstance(v, Opaque):
             return Val.vobj(z3.IntVal(self.kind_id(v.kind)), v.ident)
+        if isinstance(v, ZRec):
+            v = v.get()
+        if isinstance(v, PRec) and 'dkeys' in v.f:
+            return Val.vdict(v.f['dkeys'], v.f['dvals'])
+        if S.is_record(v) and 'dkeys' in S.rec_fields(S.record_name(v.sort())):
+            return Val.vdict(S.rec_get(v, 'dkeys'), S.rec_get(v, 'dvals'))
+        if S.is_record(v):
+            f = self.w.uf(f'embed_{S.record_name(v.sort())}', v.sort(), z3.IntSort())
+            return Val.vobj(z3.IntVal(self.kind_id(S.record_name(v.sort()))), f(v))
         if z3.is_expr(v):
             try:
                 return S.box(v)
@@ -1118,6 +1131,13 @@ class Interp:
         if z3.is_expr(v):
             if v.sort() == sort:
                 return v
+            if isinstance(sort, z3.SeqSortRef) and S.is_seq(v) and z3.is_true(z3.simplify(z3.Length(v) == 0)):
+                return z3.Empty(sort)
+            rn = S.record_name(sort)
+            if rn and 'dkeys' in S.rec_fields(rn) and S.is_val(v):
+                if not self.spec:
+                    self.p.oblige('type', Val.is_vdict(v), node, 'value is a dict')
+                return S.rec_make(rn, dkeys=Val.dkeys(v), dvals=Val.dvals(v))
             if sort == Val:
                 return self.to_val(v, node)
             if S.is_val(v):
@@ -1184,6 +1204,9 @@ class Interp:
             return PyConst('excclass', self.w.exc.resolve(name))
         if name in BUILTINS:
             return PyConst('builtin', name)
+        alias = getattr(self.w.registry, 'class_alias', {}).get(name)
+        if alias is not None:
+            name = alias
         if name in S.RECORDS:
             return PyConst('record', name)
         if name in self.w.registry.classes:
@@ -1365,8 +1388,8 @@ class Interp:
             return z3.Select(container, xx)
         if S.is_seq(container):
             return z3.Contains(container, z3.Unit(self.coerce_sort(x, container.sort().basis(), n)))
-        if isinstance(container, PRec) and 'dkeys' in container.f:
-            return z3.Select(container.f['dkeys'], self.as_str(x, n))
+        if self.dictview(container) is not None:
+            return z3.Select(self.dictview(container)[0](), self.as_str(x, n))
         if isinstance(container, PRec) and 'okeys' in container.f:
             return z3.Contains(container.f['okeys'], z3.Unit(self.coerce_sort(x, container.f['okeys'].sort().basis(), n)))
         if S.is_val(container):
@@ -1501,6 +1524,23 @@ class Interp:
 
     # ---- subscripts ----------------------------------------------------------------
     def ex_Subscript(self, n):
+        if not self.spec and not isinstance(n.slice, ast.Slice) and isinstance(n.value, (ast.Attribute, ast.Name)):
+            get, set_ = self.place(n.value)
+            obj = get()
+            if S.is_seq(obj):
+                rn = S.record_name(obj.sort().basis())
+                if rn and S.RECORD_MUTABLE.get(rn):
+                    i = self.norm_index(self.ev(n.slice), z3.Length(obj), n)
+                    i = z3.simplify(i)
+
+                    def _set(t, i=i):
+                        cur = get()
+                        set_(z3.Concat(z3.Extract(cur, 0, i), z3.Unit(t), z3.Extract(cur, i + 1, z3.Length(cur) - i - 1)))
+
+                    return ZRec(rn, lambda i=i: get()[i], _set)
+            if isinstance(n.slice, ast.Slice):
+                return self.slice(obj, n.slice, n)
+            return self.getitem(obj, self.ev(n.slice), n)
         obj = self.ev(n.value)
         if isinstance(n.slice, ast.Slice):
             return self.slice(obj, n.slice, n)
@@ -1526,10 +1566,7 @@ class Interp:
             obj = obj.get()
         if S.is_seq(obj):
             i = self.norm_index(idx, z3.Length(obj), n)
-            el = obj[i]
-            if S.is_record(el) and S.RECORD_MUTABLE.get(S.record_name(el.sort())):
-                self.oos('mutable record read through r-value subscript', n)
-            return el
+            return obj[i]
         if S.is_str(obj):
             i = self.norm_index(idx, z3.Length(obj), n)
             return z3.SubString(obj, i, 1)
@@ -1544,7 +1581,11 @@ class Interp:
             if isinstance(idx, int):
                 return obj.items[idx]
             self.oos('symbolic index into python tuple', n)
-        if isinstance(obj, PRec) and 'dkeys' in obj.f:
+        if self.dictview(obj) is not None:
+            if isinstance(obj, (PRec, ZRec)):
+                get, where = self.find_method(obj.cls, '__getitem__')
+                if get is not None and not self.spec:
+                    return self.call_closure(Closure(get, {}, where[0], where[1]), obj, [idx], {}, n)
             return self.dict_getitem(obj, idx, n)
         if z3.is_expr(obj) and z3.is_array(obj):
             return z3.Select(obj, self.z(idx))
@@ -1612,7 +1653,15 @@ class Interp:
     def setitem(self, pl, idx, v, n):
         get, set_ = pl
         obj = get()
-        if isinstance(obj, PRec) and 'dkeys' in obj.f:
+        if self.dictview(obj) is not None:
+            if isinstance(obj, (PRec, ZRec)):
+                setter, where = self.find_method(obj.cls, '__setitem__')
+                if setter is not None:
+                    key = f'{where[0]}:{where[1]}.__setitem__'
+                    c = self.w.registry.get(key)
+                    if c is not None:
+                        return self.call_contract(c, obj, [idx, v], {}, n)
+                    return self.call_closure(Closure(setter, {}, where[0], where[1]), obj, [idx, v], {}, n)
             return self.dict_setitem(obj, idx, v, n)
         if isinstance(obj, PRec) and 'okeys' in obj.f:
             return self.odict_setitem(obj, idx, v, n)
@@ -1641,24 +1690,40 @@ class Interp:
         obj = get()
         if isinstance(obj, PRec) and 'okeys' in obj.f:
             return self.odict_delitem(obj, idx, n)
-        if isinstance(obj, PRec) and 'dkeys' in obj.f:
+        if self.dictview(obj) is not None:
+            gk, sk, _, _ = self.dictview(obj)
             k = self.as_str(idx, n)
-            self.p.oblige('safety', z3.Select(obj.f['dkeys'], k), n, 'key present (KeyError)', tag='safety')
-            obj.f['dkeys'] = z3.Store(obj.f['dkeys'], k, False)
+            self.p.oblige('safety', z3.Select(gk(), k), n, 'key present (KeyError)', tag='safety')
+            sk(z3.Store(gk(), k, False))
             return
         self.oos(f'del item on {type(obj).__name__}', n)
 
     # ---- dict models ---------------------------------------------------------------
-    def dict_getitem(self, d: PRec, idx, n):
+    def dictview(self, d):
+        """(keys(), set_keys, vals(), set_vals) of a string-keyed dict model, or None."""
+        if isinstance(d, PRec) and 'dkeys' in d.f:
+            return (lambda: d.f['dkeys'], lambda t: d.f.__setitem__('dkeys', t),
+                    lambda: d.f['dvals'], lambda t: d.f.__setitem__('dvals', t))
+        if isinstance(d, ZRec) and 'dkeys' in S.rec_fields(d.cls):
+            return (lambda: S.rec_get(d.get(), 'dkeys'), lambda t: d.set(S.rec_set(d.get(), 'dkeys', t)),
+                    lambda: S.rec_get(d.get(), 'dvals'), lambda t: d.set(S.rec_set(d.get(), 'dvals', t)))
+        if S.is_record(d) and 'dkeys' in S.rec_fields(S.record_name(d.sort())):
+            ro = lambda _t: self.oos('store into an immutable dict value')
+            return (lambda: S.rec_get(d, 'dkeys'), ro, lambda: S.rec_get(d, 'dvals'), ro)
+        return None
+
+    def dict_getitem(self, d, idx, n):
+        gk, _, gv, _ = self.dictview(d)
         k = self.as_str(idx, n)
         if not self.spec:
-            self.p.oblige('safety', z3.Select(d.f['dkeys'], k), n, 'key present (KeyError)', tag='safety')
-        return z3.Select(d.f['dvals'], k)
+            self.p.oblige('safety', z3.Select(gk(), k), n, 'key present (KeyError)', tag='safety')
+        return z3.Select(gv(), k)
 
-    def dict_setitem(self, d: PRec, idx, v, n):
+    def dict_setitem(self, d, idx, v, n):
+        gk, sk, gv, sv = self.dictview(d)
         k = self.as_str(idx, n)
-        d.f['dkeys'] = z3.Store(d.f['dkeys'], k, True)
-        d.f['dvals'] = z3.Store(d.f['dvals'], k, self.coerce_sort(v, d.f['dvals'].sort().range(), n))
+        sk(z3.Store(gk(), k, True))
+        sv(z3.Store(gv(), k, self.coerce_sort(v, gv().sort().range(), n)))
 
     # ordered dict model: okeys = Seq(K) in insertion order (distinct), ovals = Array(K, V)
     def odict_setitem(self, d: PRec, idx, v, n):
@@ -1765,6 +1830,8 @@ class Interp:
                 if c is not None and not self.w.registry.force_inline(key):
                     return BoundMeth(obj, fn.name, c)
                 return BoundMeth(obj, fn.name, Closure(fn, {}, where[0], where[1]))
+            if self.dictview(obj) is not None:
+                return BoundMeth(obj, attr, PyConst('dictmethod', attr))
             self.oos(f'unknown attribute {name}.{attr}', n)
         if S.is_record(obj):
             name = S.record_name(obj.sort())
@@ -1886,7 +1953,7 @@ class Interp:
         if isinstance(f, ast.Attribute) and isinstance(f.value, ast.Call) and isinstance(f.value.func, ast.Name) \
                 and f.value.func.id == 'super' and not f.value.args:
             me = self.env.get('self')
-            if isinstance(me, PRec) and ('okeys' in me.f or 'dkeys' in me.f):
+            if (isinstance(me, PRec) and 'okeys' in me.f) or self.dictview(me) is not None:
                 return BoundMeth(me, f.attr, PyConst('dictmethod', 'super.' + f.attr))
             return BoundMeth(me, f.attr, PyConst('supermethod', f.attr))
         if isinstance(f, ast.Attribute) and f.attr in LIST_MUT:
@@ -2057,7 +2124,8 @@ LIST_MUT = {'append', 'pop', 'extend', 'clear', 'insert'}
 BUILTINS = {
     'len', 'isinstance', 'bool', 'int', 'str', 'min', 'max', 'range', 'all', 'any', 'getattr', 'hasattr',
     'callable', 'next', 'iter', 'enumerate', 'abs', 'repr', 'sorted', 'hash', 'issubclass', 'super', 'print', 'id',
-    'ord', 'chr', 'zip', 'sum', 'old', 'int_ok', 'uint_ok', 'float_ok', 'implies',
+    'ord', 'chr', 'zip', 'sum', 'old', 'int_ok', 'uint_ok', 'float_ok', 'implies', 'type', 'dict_with', 'dict_get',
+    'dict_has', 'seq_eq',
 }
 
 
